@@ -127,7 +127,8 @@ Definition shape (ps : list piece) : str :=
 
 Inductive err :=
 | EWhitespace | EIdent | EDup | EMissingConv | EUnknownConv | ECannotInst
-| ENoChildren | EConflict | EComplexMulti.
+| ENoChildren | EConflict | EComplexMulti
+| EBadResponders.   (* TypeError: coroutine responders on a WSGI router / plain ones on an ASGI router *)
 Inductive ires := IOk | IErr (e : err).
 
 Definition is_alpha_ (c : N) : bool :=
@@ -782,9 +783,16 @@ Variable cmulti : str -> bool.
 Record router := { r_roots : list node; r_finder : option (list cx * tables) }.
 Definition router0 : router := {| r_roots := []; r_finder := None |}.
 
-Definition router_add (strict atomic : bool) (r : router) (tpl : str) (rid : N) (comp : bool)
+(* CompiledRouter.add_route as a whole: the method map is built and its responders are checked
+   against the router's kind (_require_coroutine_responders / _require_non_coroutine_responders)
+   BEFORE the template is looked at; [rok] = the resource's responders are of the right kind *)
+Definition add_route_r (strict atomic rok : bool) (roots : list node) (tpl : str) (rid : N)
+  : list node * ires :=
+  if rok then add_route cinst cmulti strict atomic roots tpl rid else (roots, IErr EBadResponders).
+
+Definition router_add (strict atomic : bool) (r : router) (tpl : str) (rid : N) (comp rok : bool)
   : router * ires :=
-  let '(roots', x) := add_route cinst cmulti strict atomic (r_roots r) tpl rid in
+  let '(roots', x) := add_route_r strict atomic rok (r_roots r) tpl rid in
   match x with
   | IOk => ({| r_roots := roots';
                r_finder := if comp then Some (compile cinst cmulti roots') else None |}, IOk)
